@@ -319,6 +319,19 @@ def naming_rule(crate, prop, rule="C09.R2"):
                     r.fail(prop, "naming-precedence %s [%s]" % (fn_path, cls),
                            "a definition of the %s name that is %s is reached with rename=%s, rename_all=%s (1 = given): an explicit `rename` must be used verbatim, `rename_all` applies only without it, and the plain identifier only without both" % (role, {"verbatim": "the `rename` text", "applied": "a rename_all conversion", "ident": "the plain identifier"}[cls], ren, rall),
                            f, l)
+    # every property a struct field turns into is named through the same decision: the name slot of each member template
+    # has a rename_all conversion among the values it can take (a member written by a path of its own - an overridden type,
+    # a helper - must not fall back to `rename`/identifier only)
+    fb, mts = member_templates(crate)
+    for tpl, lit, slots in (mts if fb is not None else []):
+        if len(slots) < 2:
+            continue
+        calls, _, _ = M.deep_slice(fb, slots[1], component=_comp(tpl.projs[1] if len(tpl.projs) > 1 else None))
+        conv = sorted({(M.callee(c) or "").split("::")[-1] for _, c in calls if fn_matches(c, r"attr::Inflection::apply\w*$")})
+        named = any(fn_matches(c, *UNRAW) or fn_matches(c, r"utils::raw_name_to_ts_field$") for _, c in calls)
+        r.inst(fn=FIELD_FN, member_template=lit, where="%s:%s" % (tpl.file, tpl.line), name_slot_conversions=conv)
+        if named and not conv:
+            r.fail(prop, "member-name-skips-rename_all %s" % FIELD_FN, "the property name interpolated into %r (line %s) is computed without any rename_all conversion: for that kind of field `#[..(rename_all = \"..\")]` of the container has no effect" % (lit, tpl.line), tpl.file, tpl.line)
     r.floor = 4
     return r
 
@@ -1456,3 +1469,140 @@ def merge_verdict(info, kind):
             return "BAD", desc + " - `%s` is taken although the test says the #[ts] value is %s" % (side, "present" if tv.get("self") == 1 else "absent")
         verdict = "undecided"
     return verdict, desc
+
+
+# ------------------------------------------------------------------ what a field's type is emitted as, and what is recorded for it
+
+_TS_REF = re.compile(r"< # (\S+) as # \S+ :: TS > :: (inline_flattened|inline|name) \(")
+
+
+def _type_refs(crate, prefix="types::"):
+    """[(body, template, interp name, local, proj, method)] for every `<#x as TS>::name()/inline()/inline_flattened()` in a
+    template of the type formatters"""
+    out = []
+    for b in crate.bodies:
+        if not b.path.startswith(prefix):
+            continue
+        for tpl in Q.templates(b):
+            for m in _TS_REF.finditer(tpl.text()):
+                for (nm, l, ty), pj in zip(tpl.interps, tpl.projs):
+                    if nm == m.group(1):
+                        out.append((b, tpl, nm, l, list(pj or []), m.group(2)))
+                        break
+    return out
+
+
+def _field_flags(cons):
+    fl = {}
+    for s, v in cons:
+        m = re.search(r"FieldAttr\.(inline|flatten|skip|type_override)$", s)
+        if m and v in (0, 1):
+            fl[m.group(1)] = v
+    return fl
+
+
+def _carrier_sites(crate, enum_ty, variant):
+    """where a value `enum_ty::variant` is built: [(body, block)]"""
+    out = []
+    for bx in crate.bodies:
+        for blk in range(bx.n):
+            if bx.is_cleanup(blk):
+                continue
+            for st in bx.stmts(blk):
+                if st["k"] == "assign" and st["rv"]["k"] == "agg" and (st["rv"].get("adt") or "") == enum_ty and st["rv"].get("variant") == variant:
+                    out.append((bx, blk))
+    return out
+
+
+def _cell(fl):
+    return "type=.." if fl.get("type_override") == 1 else "flatten" if fl.get("flatten") == 1 else "inline" if fl.get("inline") == 1 else "plain" if fl.get("inline") == 0 else "?"
+
+
+def selector_rule(crate, prop, rule="C14.R3"):
+    r = Result(rule, "every template of the type formatters that refers to a field's type is read together with the tests of the field's attributes that dominate it (when the choice travels in an enum - `Inlined(ty)`, `Named(ty)` - with the tests that dominate the places where that variant is built): `inline()` only for `#[ts(inline)]`, `name()` only without it, `inline_flattened()` only for `#[ts(flatten)]`, none of them when the type is overridden or the field skipped; templates without such tests around them are recorded as undecided")
+    n = 0
+    for b, tpl, nm, l, pj, m in _type_refs(crate):
+        cons = _edge_constraints(b, tpl.block)
+        sites = [(b, _field_flags(cons))]
+        via = None
+        var = next((x[3:] for x in pj if x.startswith("as ")), None)
+        if not sites[0][1] and var is not None:
+            o = panics.operand_origin(b, {"k": "copy", "pl": {"l": l, "p": pj}})
+            mm = re.match(r"field (\S+)\.%s::" % re.escape(var), o)
+            if mm:
+                via = "%s::%s" % (mm.group(1), var)
+                sites = [(bx, _field_flags(_edge_constraints(bx, blk))) for bx, blk in _carrier_sites(crate, mm.group(1), var)]
+        for bx, fl in sites:
+            verdict = "undecided"
+            if fl.get("type_override") == 1 or fl.get("skip") == 1:
+                verdict = "BAD"
+            elif m == "inline":
+                verdict = "BAD" if fl.get("inline") == 0 or fl.get("flatten") == 1 else "ok" if fl.get("inline") == 1 else "undecided"
+            elif m == "name":
+                verdict = "BAD" if fl.get("inline") == 1 or fl.get("flatten") == 1 else "ok" if fl.get("inline") == 0 else "undecided"
+            elif m == "inline_flattened":
+                # chosen by tests of the field's attributes none of which is `flatten`: the flattened form of a type is
+                # emitted for a field that is not flattened
+                verdict = "BAD" if fl.get("flatten") == 0 or (fl and "flatten" not in fl) else "ok" if fl.get("flatten") == 1 else "undecided"
+            if fl:
+                n += 1
+            fn = re.sub(r"::\{closure#\d+\}", "", bx.path)
+            r.inst(fn=b.path, emits="%s()" % m, carried_by=via, decided_in=bx.path, attribute_tests=fl, where="%s:%s" % (tpl.file, tpl.line), verdict=verdict)
+            if verdict == "BAD":
+                r.fail(prop, "selector-emission %s [%s]" % (fn, _cell(fl)), "for a field with %s the formatter emits `<T as TS>::%s()`" % (", ".join("%s=%s" % kv for kv in sorted(fl.items())), m), tpl.file, tpl.line)
+    if n == 0:
+        r.fail(prop, "anchor-missing field type templates", "no template referring to a field's type under a test of the field's attributes found")
+    r.floor = 6
+    return r
+
+
+def pairing_rule(crate, prop, rule="C03.R1"):
+    r = Result(rule, "every template of the type formatters that names a type (`<#x as TS>::name()`) has `Dependencies::push` called for the same value, and every template that inlines it (`inline()`, `inline_flattened()`) has `append_from`: in the same function on the same path (one of the two dominates the other), or - when the value travels in an enum variant - wherever a function records the payload of that same variant")
+    want = {"name": "push", "inline": "append_from", "inline_flattened": "append_from"}
+    dep_rx = r"deps::Dependencies::(push|append_from)$"
+    all_deps = []
+    for bx in crate.bodies:
+        for blk, t in bx.calls():
+            if not bx.is_cleanup(blk) and fn_matches(t, dep_rx) and len(t["args"]) > 1:
+                desc, root = panics.operand_origin_ex(bx, t["args"][1])
+                all_deps.append((bx, blk, M.callee(t).split("::")[-1], desc, root))
+    n = 0
+    for b, tpl, nm, l, pj, m in _type_refs(crate, prefix=""):
+        if not (b.path.startswith("types::") or b.path.startswith("utils::")):
+            continue
+        desc, root = panics.operand_origin_ex(b, {"k": "copy", "pl": {"l": l, "p": pj}})
+        # recorded on the same path: no test of the CFG is decided one way on the way to the template and the other way on
+        # the way to the call (`match` for the text, then a second `match` on the same attributes for the dependencies)
+        tc = dict((s, v) for s, v in _edge_constraints(b, tpl.block) if not s.startswith("call "))
+        def compatible(blk):
+            return all(tc.get(s, v) == v for s, v in _edge_constraints(b, blk) if not s.startswith("call "))
+        local = [(blk, kind) for bx, blk, kind, d2, r2 in all_deps if bx is b and r2 == root and (d2 == desc or not desc.startswith("field ")) and compatible(blk)]
+        fn = re.sub(r"::\{closure#\d+\}", "", b.path)
+        key = "unpaired-reference %s #%s::%s" % (fn, re.sub(r"^self__|^_\d+__", "", nm), m)
+        n += 1
+        if local:
+            kinds = sorted({k for _, k in local})
+            ok = want[m] in kinds
+            r.inst(fn=b.path, template="<#%s as TS>::%s()" % (nm, m), value=desc, recorded_by=kinds, where="%s:%s" % (tpl.file, tpl.line), paired=ok)
+            if not ok:
+                r.fail(prop, key, "template emits <#%s as TS>::%s() but on that path the function calls %s for the same value, not %s: the binding would mention a type whose import/file is not produced (or import one it does not use)" % (nm, m, kinds, want[m]), tpl.file, tpl.line)
+            continue
+        mm = re.match(r"field (\S+)\.(\w+)::\d+$", desc)
+        if mm:
+            same = sorted({k for bx, blk, k, d2, r2 in all_deps if d2 == desc})
+            on_enum = [d2 for bx, blk, k, d2, r2 in all_deps if d2.startswith("field %s." % mm.group(1))]
+            verdict = "ok" if want[m] in same else "BAD" if same or on_enum else "undecided"
+            r.inst(fn=b.path, template="<#%s as TS>::%s()" % (nm, m), value=desc, recorded_elsewhere=same, where="%s:%s" % (tpl.file, tpl.line), paired=verdict)
+            if verdict == "BAD":
+                r.fail(prop, key, "template emits <#%s as TS>::%s() for the payload of %s::%s, but what is recorded for that payload is %s (expected %s)" % (nm, m, mm.group(1), mm.group(2), same or "nothing", want[m]), tpl.file, tpl.line)
+            continue
+        has_deps = any("deps::Dependencies" in (x["ty"] or "") for x in b.locals)
+        same_root = sorted({k for bx, blk, k, d2, r2 in all_deps if bx is b and r2 == root})
+        r.inst(fn=b.path, template="<#%s as TS>::%s()" % (nm, m), value=desc, recorded_by=same_root, where="%s:%s" % (tpl.file, tpl.line), paired=False if has_deps else "undecided: the function has no Dependencies at hand")
+        if has_deps:
+            r.fail(prop, key, "template emits <#%s as TS>::%s() but the function never calls %s for that value%s: the binding would mention a type whose import/file is not produced (or import one it does not use)"
+                   % (nm, m, want[m], (" (it calls %s on another path)" % same_root) if same_root else ""), tpl.file, tpl.line)
+    if n == 0:
+        r.fail(prop, "anchor-missing type reference templates", "no template referring to a type through TS::name()/inline() found")
+    r.floor = 8
+    return r
